@@ -99,6 +99,7 @@ def generate(unit, scratch):
     path = os.path.join(scratch, unit["id"] + ".c")
     with open(path, "w") as f:
         f.write(text)
+    info["loops_vanished"] = any("loop contracts dropped" in r for f in info["functions"] for r in f.get("rules_fired", []))
     info["assume_count"] = len(re.findall(r"__CPROVER_assume", text))
     info["c_sha256"] = hashlib.sha256(text.encode()).hexdigest()
     return path, info
@@ -126,7 +127,7 @@ def parse_cbmc_json(out):
     return results, status, msgs
 
 
-def run_job(unit, job, cfile, scratch, canary=False):
+def run_job(unit, job, cfile, scratch, canary=False, loops_vanished=False):
     """returns dict(name, status in {ok, fail, undecided}, props=[...], failed=[...], secs, detail)"""
     tag = unit["id"] + "." + job["name"] + (".canary" if canary else "")
     safe = re.sub(r"[^\w.]", "_", tag)
@@ -223,7 +224,7 @@ def run_job(unit, job, cfile, scratch, canary=False):
         else:
             res["detail"] = "VACUOUS: canary assertion not reachable (contradictory preconditions / assumptions)"
         return res
-    if job.get("loops") and job.get("expect_loop_steps"):
+    if job.get("loops") and job.get("expect_loop_steps") and not loops_vanished:
         steps = [r for r in results if "loop_invariant_step" in (r.get("property") or "") or
                  "invariant after step" in (r.get("description") or "").lower() or
                  "is preserved" in (r.get("description") or "")]
@@ -373,7 +374,7 @@ def _run(prop, tier, seed, args, scratch, t_start):
     tasks.sort(key=lambda t: -t[1].get("timeout", 120))
     results = []
     with cf.ThreadPoolExecutor(max_workers=NPROC) as ex:
-        futs = [ex.submit(run_job, u, j, gen[u["id"]][0], scratch, c) for (u, j, c) in tasks]
+        futs = [ex.submit(run_job, u, j, gen[u["id"]][0], scratch, c, gen[u["id"]][1].get("loops_vanished", False)) for (u, j, c) in tasks]
         for f in futs:
             results.append(f.result())
 
